@@ -66,3 +66,121 @@ pub proof fn lemma_ins_point(mid: ParsedPacket, s: Section)
     lemma_opt_at_facts(p, sec_start(p, Section::Additional), sec_count(p, Section::Additional));
     let v = mid.packet.unwrap(); axiom_vec_len(&v);
 }
+
+// ---- resize_rr: the record at `off` grows or shrinks by d bytes
+pub open spec fn shift_ok(a: Option<usize>, d: int) -> bool { a matches Some(x) ==> x <= 0xffff && 0 <= x + d }
+pub open spec fn edns_after(e: Option<usize>, off: usize, d: int) -> Option<usize> {
+    match e { Some(x) => if off < x { Some((x + d) as usize) } else { Some(x) }, None => None }
+}
+pub open spec fn resize_pre(pp: ParsedPacket, offopt: Option<usize>, next: int, d: int) -> bool {
+    pp.bytes().len() <= 0xffff && -0x10000 <= d <= 0x10000 && (offopt matches Some(off) ==> {
+        let s = section_at(pp, offopt);
+        off <= pp.bytes().len() && (d < 0 ==> off - d <= pp.bytes().len()) && 0 <= next <= pp.bytes().len() && 0 <= next + d
+        && !opt_lt(offopt, pp.offset_question)
+        && (pp.offset_edns matches Some(e) ==> e <= 0xffff)
+        && (!(s is Additional) ==> shift_ok(pp.offset_additional, d))
+        && (s is Answer || s is Question ==> shift_ok(pp.offset_nameservers, d))
+        && (s is Question ==> shift_ok(pp.offset_answers, d))
+    })
+}
+pub open spec fn resized(fin: ParsedPacket, old: ParsedPacket, off: usize, d: int) -> bool {
+    let u = old.bytes(); let v = fin.bytes(); let s = section_at(old, Some(off)); let len = u.len() as int;
+    fin.packet.is_some() && v.len() == len + d && v.subrange(0, off as int) == u.subrange(0, off as int)
+    && (if d > 0 { v.subrange(off + d, len + d) == u.subrange(off as int, len) } else { v.subrange(off as int, len + d) == u.subrange(off - d, len) })
+    && fin.offset_question == old.offset_question
+    && fin.offset_answers == (if s is Question { shift_u(old.offset_answers, d) } else { old.offset_answers })
+    && fin.offset_nameservers == (if s is Question || s is Answer { shift_u(old.offset_nameservers, d) } else { old.offset_nameservers })
+    && fin.offset_additional == (if s is Additional { old.offset_additional } else { shift_u(old.offset_additional, d) })
+    && fin.offset_edns == edns_after(old.offset_edns, off, d)
+    && fin.edns_count == old.edns_count && fin.ext_rcode == old.ext_rcode && fin.edns_version == old.edns_version && fin.ext_flags == old.ext_flags
+    && fin.maybe_compressed == old.maybe_compressed && fin.max_payload == old.max_payload && fin.cached == old.cached
+}
+
+// ---- set_raw_name / delete: the cursor (off, ne, next) designates a record whose name ends at ne and which ends at next
+pub open spec fn splice(u: Seq<u8>, a: int, b: int, w: Seq<u8>) -> Seq<u8> { u.subrange(0, a) + w + u.subrange(b, u.len() as int) }
+pub open spec fn later_ok(a: Option<usize>, next: int, len: int) -> bool { a matches Some(x) ==> next <= x <= len }
+// every section offset that moves when this record changes size lies at or after the end of the record
+pub open spec fn cursor_ok(pp: ParsedPacket, off: usize, ne: int, next: int) -> bool {
+    let s = section_at(pp, Some(off)); let len = pp.bytes().len() as int;
+    pp.packet.is_some() && len <= 0xffff && off <= ne <= next <= len && off < next && !opt_lt(Some(off), pp.offset_question)
+    && (pp.offset_edns matches Some(e) ==> e <= len && (off < e ==> ne <= e))
+    && (!(s is Additional) ==> later_ok(pp.offset_additional, next, len))
+    && (s is Answer || s is Question ==> later_ok(pp.offset_nameservers, next, len))
+    && (s is Question ==> later_ok(pp.offset_answers, next, len))
+}
+pub proof fn lemma_cursor_resize(pp: ParsedPacket, off: usize, ne: int, next: int, d: int)
+    requires cursor_ok(pp, off, ne, next), off - ne <= d <= 0x10000 || d == off - next
+    ensures resize_pre(pp, Some(off), next, d)
+{ }
+// what the trait-level code needs to know about the (decompressed) packet it is about to edit; T says how this kind of cursor decodes its record
+pub open spec fn mid_ok<T: DNSIterable + ?Sized>(mid: ParsedPacket, o: usize, ne: int, next: int) -> bool {
+    cursor_ok(mid, o, ne, next) && skip_walk(mid.bytes().subrange(o as int, ne), 0) == Some(ne - o)
+    && forall|nm: Seq<u8>| is_cname(nm) ==> #[trigger] T::trec_ok(splice(mid.bytes(), o as int, ne, nm), o as int)
+}
+// C09: "setting a name replaces only that record's owner name"
+pub open spec fn named(fin: ParsedPacket, mid: ParsedPacket, off: usize, ne: int, nm: Seq<u8>) -> bool {
+    let s = section_at(mid, Some(off)); let d = nm.len() - (ne - off);
+    fin.packet.is_some() && fin.bytes() == splice(mid.bytes(), off as int, ne, nm)
+    && fin.offset_question == mid.offset_question
+    && fin.offset_answers == (if s is Question { shift_u(mid.offset_answers, d) } else { mid.offset_answers })
+    && fin.offset_nameservers == (if s is Question || s is Answer { shift_u(mid.offset_nameservers, d) } else { mid.offset_nameservers })
+    && fin.offset_additional == (if s is Additional { mid.offset_additional } else { shift_u(mid.offset_additional, d) })
+    && fin.offset_edns == edns_after(mid.offset_edns, off, d)
+    && fin.edns_count == mid.edns_count && fin.ext_rcode == mid.ext_rcode && fin.edns_version == mid.edns_version && fin.ext_flags == mid.ext_flags
+    && fin.maybe_compressed == mid.maybe_compressed && fin.max_payload == mid.max_payload && fin.cached.is_none()
+}
+// a name accepted on its own (checked from offset 0 of its own buffer) cannot contain a pointer: there is nothing below offset 0
+pub proof fn lemma_walk0_pcs(p: Seq<u8>, off: int, refs: int, nlen: int)
+    requires walk(p, off, p.len() as int, 0, refs, nlen, None).is_some()
+    ensures pcs_walk(p, off, nlen) == walk(p, off, p.len() as int, 0, refs, nlen, None)
+    decreases p.len() - off
+{
+    let b = p[off];
+    if b & 0xc0 == 0xc0 { } else if b == 0 { } else { lemma_walk0_pcs(p, off + b + 1, refs, nlen + b + 1); }
+}
+pub proof fn lemma_own_name(nm: Seq<u8>)
+    requires name_end(nm, 0).is_some()
+    ensures is_cname(nm.subrange(0, name_end(nm, 0).unwrap())), 1 <= name_end(nm, 0).unwrap() <= nm.len(), name_end(nm, 0).unwrap() <= 255,
+{
+    lemma_walk0_pcs(nm, 0, 16, 0);
+    lemma_pcs_bounds(nm, 0, 0);
+    let e = pcs_walk(nm, 0, 0).unwrap(); let s = nm.subrange(0, e);
+    assert forall|i: int| 0 <= i < e implies nm[i] == s[i - 0 + 0] by { }
+    lemma_pcs_shift(nm, 0, s, 0, 0);
+    lemma_pcs_plain(nm, 0, 0); lemma_plain_len(nm, 0, 0);
+}
+
+// after the tail has moved by d = n - (ne - off), writing the n bytes of the new name at off gives the splice
+pub proof fn lemma_resized_splice(u: Seq<u8>, v: Seq<u8>, off: int, ne: int, nm: Seq<u8>)
+    requires 0 <= off <= ne <= u.len(), ({ let d = nm.len() - (ne - off); let len = u.len() as int;
+        v.len() == len + d && v.subrange(0, off) == u.subrange(0, off)
+        && (if d > 0 { v.subrange(off + d, len + d) == u.subrange(off, len) } else { v.subrange(off, len + d) == u.subrange(off - d, len) }) }),
+    ensures v.subrange(0, off) + nm + v.subrange(off + nm.len(), v.len() as int) == splice(u, off, ne, nm)
+{
+    let d = nm.len() - (ne - off); let len = u.len() as int; let n = nm.len() as int;
+    let a = v.subrange(off + n, v.len() as int); let b = u.subrange(ne, len);
+    assert(a.len() == b.len());
+    assert forall|j: int| 0 <= j < a.len() implies a[j] == b[j] by {
+        if d > 0 { assert(v.subrange(off + d, len + d)[ne - off + j] == u.subrange(off, len)[ne - off + j]); }
+        else { assert(v.subrange(off, len + d)[n + j] == u.subrange(off - d, len)[n + j]); }
+    }
+    assert(a =~= b);
+}
+
+// ---- delete: C09 "deleting removes only that record and lowers only its section's count"
+pub open spec fn none_if(c: bool, a: Option<usize>) -> Option<usize> { if c { None } else { a } }
+pub open spec fn del_ok(mid: ParsedPacket, o: usize, ne: int, next: int, s: Section) -> bool {
+    cursor_ok(mid, o, ne, next) && section_at(mid, Some(o)) == s && 12 <= o && be16(mid.bytes(), 4 + 2 * sec_idx(s)) > 0
+}
+pub open spec fn deleted(fin: ParsedPacket, mid: ParsedPacket, off: usize, next: int, s: Section, was_opt: bool) -> bool {
+    let u = mid.bytes(); let d = off - next; let cp = 4 + 2 * sec_idx(s); let c = (be16(u, cp) - 1) as u16; let z = c == 0;
+    fin.packet.is_some() && fin.bytes() == set2(splice(u, off as int, next, Seq::<u8>::empty()), cp, c)
+    && fin.offset_question == none_if(z && s is Question, mid.offset_question)
+    && fin.offset_answers == none_if(z && s is Answer, if s is Question { shift_u(mid.offset_answers, d) } else { mid.offset_answers })
+    && fin.offset_nameservers == none_if(z && s is NameServers, if s is Question || s is Answer { shift_u(mid.offset_nameservers, d) } else { mid.offset_nameservers })
+    && fin.offset_additional == none_if(z && s is Additional, if s is Additional { mid.offset_additional } else { shift_u(mid.offset_additional, d) })
+    && (if was_opt { fin.offset_edns.is_none() && fin.edns_count == 0 && fin.ext_rcode.is_none() && fin.edns_version.is_none() && fin.ext_flags.is_none() }
+        else { fin.offset_edns == edns_after(mid.offset_edns, off, d) && fin.edns_count == mid.edns_count && fin.ext_rcode == mid.ext_rcode
+               && fin.edns_version == mid.edns_version && fin.ext_flags == mid.ext_flags })
+    && fin.maybe_compressed == mid.maybe_compressed && fin.max_payload == mid.max_payload && fin.cached.is_none()
+}
